@@ -232,6 +232,8 @@ class Scheduler:
         self.preempt_p = float(cfg.get("preempt_p", 0.0))
         self.preempt_files = tuple(cfg.get("preempt_files", ("udp_socket.py",)))
         self.cost_p = float(cfg.get("cost_p", 0.0))
+        self.preempt_stall_p = float(cfg.get("preempt_stall_p", 0.0))
+        self.preempt_stall_max = float(cfg.get("preempt_stall_max", 1.0))
         self.s_wall = choices.stream("clock.wall")
         self.wall_jump_p = float(cfg.get("wall_jump_p", 0.0))
         self.wall_jump_max = float(cfg.get("wall_jump_max", 86400.0))
@@ -260,6 +262,10 @@ class Scheduler:
         if event == "line" and not self.killing:
             if self.s_preempt.chance(self.preempt_p):
                 self.preemptions += 1
+                if self.preempt_stall_p and self.s_preempt.chance(self.preempt_stall_p):
+                    # the pre-empted thread stays off the processor for a while: timers of the other threads come due meanwhile
+                    self.clock.inject(int(self.s_preempt.uniform(0.0, self.preempt_stall_max) * 1e9))
+                    self.result.fault("thread_descheduled")
                 self.yield_("preempt")
         return self._local_trace
 
